@@ -235,6 +235,35 @@ func runChild(bin, prop, tier string, v variant, seed uint64, shard int, outDir,
 
 var raceFrameRe = regexp.MustCompile(`(?m)^\s+(github\.com/maypok86/otter/v2[^\s(]*)\(`)
 
+var accessRe = regexp.MustCompile(`(?m)^(?:Read|Write|Previous read|Previous write) at [^\n]*\n((?:\s+[^\n]+\n)+)`)
+
+// harnessOnly reports whether both racing accesses are made by harness code (first non-runtime
+// frame of each access stack is in otterverif/...): then the race is the harness's own.
+func harnessOnly(report string) bool {
+	ms := accessRe.FindAllStringSubmatch(report, 2)
+	if len(ms) < 2 {
+		return false
+	}
+	for _, m := range ms {
+		first := ""
+		for _, l := range strings.Split(m[1], "\n") {
+			l = strings.TrimSpace(l)
+			if l == "" || strings.HasPrefix(l, "/") || strings.HasPrefix(l, "<") {
+				continue
+			}
+			if strings.HasPrefix(l, "runtime.") || strings.HasPrefix(l, "sync.") || strings.HasPrefix(l, "sync/atomic.") {
+				continue
+			}
+			first = l
+			break
+		}
+		if !strings.HasPrefix(first, "otterverif/") {
+			return false
+		}
+	}
+	return true
+}
+
 // raceReports splits a race log into reports and returns a dedup key per report:
 // the otter functions on the two stacks (line numbers stripped).
 func raceReports(path string) map[string]string {
@@ -467,6 +496,14 @@ func main() {
 			for _, rl := range co.raceLogs {
 				reps := raceReports(rl)
 				for key, body := range reps {
+					if harnessOnly(body) {
+						// both accesses are in the harness: its own bug, not a property of the repository
+						dst := filepath.Join(verifDir, "replays", fmt.Sprintf("%s-harness-race-%x.txt", prop, core.HashBytes([]byte(key))))
+						os.WriteFile(dst, []byte(body), 0o644)
+						a.inconclusive = append(a.inconclusive, "race between two harness accesses (not judged): "+dst)
+						a.counters["harness_race_reports"]++
+						continue
+					}
 					a.counters["race_reports"]++
 					sig := "race:" + key
 					dst := filepath.Join(verifDir, "replays", fmt.Sprintf("%s-race-%x.txt", prop, core.HashBytes([]byte(key))))
